@@ -33,6 +33,8 @@ Frac(x) == IF Len(x) = 4 THEN <<x[1], x[2], x[3] % 128>>
 Hidden(L) == IF L = 4 THEN <<0, 0, 128>> ELSE <<0, 0, 0, 0, 0, 0, 16>>
 
 IsNaN(x)  == ExpField(x) = EMaxF(Len(x)) /\ ~BNIsZero(Frac(x))
+\* a signalling NaN has the top fraction bit clear
+IsSNaN(x) == IsNaN(x) /\ (IF Len(x) = 4 THEN (x[3] \div 64) % 2 = 0 ELSE (x[7] \div 8) % 2 = 0)
 IsInf(x)  == ExpField(x) = EMaxF(Len(x)) /\ BNIsZero(Frac(x))
 IsZero(x) == ExpField(x) = 0 /\ BNIsZero(Frac(x))
 IsSubnormal(x) == ExpField(x) = 0 /\ ~BNIsZero(Frac(x))
@@ -271,13 +273,16 @@ LogbOK(x, r) ==
        ELSE /\ IsFinite(r) /\ Sign(r) = (IF E < 0 THEN 1 ELSE 0)
             /\ DyCmp(Mag(r), DyInt(FromNat(IF E < 0 THEN -E ELSE E))) = 0
 
+\* "the other operand when exactly one is NaN" is what <cmath> defines for a QUIET NaN.  For a signalling NaN
+\* C leaves the result open (Annex F does not cover signalling NaNs) and glibc's own fmax / fmin return a quiet
+\* NaN (x + y); both answers are accepted for a signalling operand.
 FmaxOK(a, b, r) ==
   IF IsNaN(a) /\ IsNaN(b) THEN IsNaN(r)
-  ELSE IF IsNaN(a) THEN r = b ELSE IF IsNaN(b) THEN r = a
+  ELSE IF IsNaN(a) THEN (r = b \/ (IsSNaN(a) /\ IsNaN(r))) ELSE IF IsNaN(b) THEN (r = a \/ (IsSNaN(b) /\ IsNaN(r)))
   ELSE LET c == FCmp(a, b) IN IF c > 0 THEN r = a ELSE IF c < 0 THEN r = b ELSE r \in {a, b}
 FminOK(a, b, r) ==
   IF IsNaN(a) /\ IsNaN(b) THEN IsNaN(r)
-  ELSE IF IsNaN(a) THEN r = b ELSE IF IsNaN(b) THEN r = a
+  ELSE IF IsNaN(a) THEN (r = b \/ (IsSNaN(a) /\ IsNaN(r))) ELSE IF IsNaN(b) THEN (r = a \/ (IsSNaN(b) /\ IsNaN(r)))
   ELSE LET c == FCmp(a, b) IN IF c < 0 THEN r = a ELSE IF c > 0 THEN r = b ELSE r \in {a, b}
 \* fdim: positive difference max(x - y, 0)
 FdimOK(mode, a, b, r) ==
